@@ -21,13 +21,13 @@ theorem clausesNames_binder : ∀ (cs : Fun.Clauses) (y : String), y ∈ clauses
 /-- `scrut.case { clauses }` -/
 theorem eval_case (X : Ctx p q) {scrut : Fun.Term} {ta : Fun.Tys} {cs : Fun.Clauses}
     {cty : Option Fun.Ty} {env : Fun.Env} {k : Fun.Stack} {c : Core.Term} {s : Core.Stmt}
-    {ρ0 ρ : CEnv} {out : Out} {n : Nat} (hg : good (.case scrut ta cs cty) = true)
+    {ρ0 ρ : CEnv} {out : Out} {n : Nat} (hg : good p (.case scrut ta cs cty) = true)
     (hc : Compiled q n (.case scrut ta cs cty) c s)
-    (he : EnvRel GP q n (fv (.case scrut ta cs cty)) env ρ0) (hr : CRel GP q n k c ρ0)
+    (he : EnvRel (GP p) q n (fv (.case scrut ta cs cty)) env ρ0) (hr : CRel (GP p) q n k c ρ0)
     (hbd : BoundOn (tfvStmt s []) ρ0) (hag : AgreeOn (tfvStmt s []) ρ0 ρ) :
-    Chunk p q (R q) true (.eval (.case scrut ta cs cty) env k) ⟨s, ρ, out, n⟩ := by
+    Chunk p q (R p q) true (.eval (.case scrut ta cs cty) env k) ⟨s, ρ, out, n⟩ := by
   simp only [good, Bool.and_eq_true] at hg
-  obtain ⟨hgs, hgc⟩ := hg
+  obtain ⟨⟨⟨hgs, hncs⟩, hgc⟩, hnct⟩ := hg
   obtain ⟨st, st', hcwc, hst, htn, hcn⟩ := hc
   rw [cwc_case] at hcwc
   have f1 : FSteps p (.eval (.case scrut ta cs cty) env k)
@@ -35,7 +35,7 @@ theorem eval_case (X : Ctx p q) {scrut : Fun.Term} {ta : Fun.Tys} {cs : Fun.Clau
   refine Chunk.prefix f1 (.refl _) rfl (fun _ => Nat.le_refl _) ?_
   have hnames : ∀ y ∈ clausesNames cs, y ∈ binderNamesClauses cs :=
     fun y hy => clausesNames_binder cs y hy
-  refine guard_sim X (fv (.case scrut ta cs cty)) hcwc
+  refine guard_sim X (fv (.case scrut ta cs cty)) hcwc hnct
     (fun y hy => htn.bd y (by simp [binderNames, hnames y hy]))
     htn.fv hcn he hr hbd hag ?_
   intro c' st1 s' ρ0' ρ' hcore hfs hcn' hyg he' hr' hbd' hag'
@@ -49,9 +49,11 @@ theorem eval_case (X : Ctx p q) {scrut : Fun.Term} {ta : Fun.Tys} {cs : Fun.Clau
   | ok rc =>
     obtain ⟨cs', st2⟩ := rc
     simp only [hcc] at hcore
-    cases hty : getType scrut with
-    | none => simp [hty] at hcore
-    | some τ =>
+    obtain ⟨τ, hty', hncτ⟩ := X.cod.ncd hncs
+    have hty : getType scrut = some τ := by rw [getType_eq]; exact hty'
+    have htriv : True := trivial
+    cases htriv with
+    | intro =>
       simp only [hty] at hcore
       have fc : FS r.2 st2 := (rel_clauses fs_stepRel cs) r.1 r.2 cs' st2 hcc
       have fs2 := fs_cwc hcore
@@ -59,7 +61,7 @@ theorem eval_case (X : Ctx p q) {scrut : Fun.Term} {ta : Fun.Tys} {cs : Fun.Clau
       have hstr := hst2.of_fresh fc.1
       have f0r : FS st r.2 := fs_stepRel.trans hfs hfr
       have f02 : FS st st2 := fs_stepRel.trans f0r fc
-      obtain ⟨hr1, hcn1⟩ : CRel GP q n k r.1 ρ0' ∧ ConsNames r.1 r.2 n := by
+      obtain ⟨hr1, hcn1⟩ : CRel (GP p) q n k r.1 ρ0' ∧ ConsNames r.1 r.2 n := by
         rw [← hrdef]
         exact shareIf_rel _ hr' hcn' (by rw [hrdef]; exact hstr.1)
       have hyg1 : ∀ b ∈ tfvTerm r.1 [], b.var.name ∉ clausesNames cs := by
@@ -77,8 +79,8 @@ theorem eval_case (X : Ctx p q) {scrut : Fun.Term} {ta : Fun.Tys} {cs : Fun.Clau
         (fun y hy => by simp [binderNames, hy]) f02
       obtain ⟨ρp, hep, hrp, hbdp, hagp, hbdK⟩ :=
         ideal_pad (tfvClauses cs' []) he' hr1 hbd' hag'
-      have hK : KRel GP q n (.caseF cs env :: k) (.case ρp cs') := by
-        refine KRel.caseF (ρ0 := ρp) (fun K cl hf => findClause_good cs K cl hgc hf)
+      have hK : KRel (GP p) q n (.caseF cs env :: k) (.case ρp cs') := by
+        refine KRel.caseF (ρ0 := ρp) (fun K cl hf => goodClauses_find p cs hgc K cl hf)
           ⟨r.2, st2, hcc, hst2, cnames, hcn1⟩ (hep.sub fun y hy => by simp [fv, hy]) hrp ?_ hbdK
           (.refl _ _)
         intro b hb _
@@ -88,6 +90,6 @@ theorem eval_case (X : Ctx p q) {scrut : Fun.Term} {ta : Fun.Tys} {cs : Fun.Clau
       exact SRel.eval (ρ0 := ρp) hgs
         ⟨st2, st', hcore, hst, tns, consNames_xcase hcc cnames hcn1 _⟩
         (hep.sub fun y hy => by simp [fv, hy])
-        (.mk (cv := .case ρp cs') rfl hK trivial (by simpa [tfvTerm] using hbdK)) hbdp hagp
+        (.mk (cv := .case ρp cs') rfl hK trivial (by simpa [tfvTerm] using hbdK) hncτ) hbdp hagp
 
 end Scc.Fun2Core.Sem
